@@ -271,20 +271,9 @@ pub fn number_to_fixed(
     Ok(Guarded::unguarded(JsValue::String(JsString::from(result))))
 }
 
-/// Format a number as a string in JavaScript format
-/// (handles Infinity, -Infinity, NaN properly)
+/// Format a number as ECMAScript Number::toString does (radix 10)
 fn format_number_js(n: f64) -> String {
-    if n.is_nan() {
-        "NaN".to_string()
-    } else if n.is_infinite() {
-        if n.is_sign_positive() {
-            "Infinity".to_string()
-        } else {
-            "-Infinity".to_string()
-        }
-    } else {
-        format!("{}", n)
-    }
+    crate::value::number_to_string(n)
 }
 
 // Number.prototype.toString
